@@ -160,6 +160,7 @@ class Interp:
         self.prints = []
         self.frozen = False
         self.once_done = set()
+        self.hidden = {}  # bookkeeping whose variable layout is not asserted (every)
         self.trace = []  # per offered record: dict
         self.errors = []  # (record index, component index)
         self.nrecords = 0
@@ -860,6 +861,22 @@ class Interp:
             d = {}
             self.vars[name] = d
         d[key] = d.get(key, 0) + by
+
+    # docs/functions/every.md: "Matches every N times a value is seen". The per-value sighting counts are kept under a
+    # private key here: the doc's text (<name>_every / <name>) and its pinned test (<name>) disagree about the variable layout,
+    # so callers do not assert every()'s variables, only its vote.
+    def m_every(self, n, q, a):
+        name = "\x00every:" + (self._name(q, None) or str(id(n)))
+        x = a[0]
+        if x[0] == "==" or (x[0] == "f" and hasattr(self, "m_" + x[1]) and not hasattr(self, "v_" + x[1])):
+            key = bool(self.match(x))
+        else:
+            key = self._tracked(x, "every")
+        step = self.value(a[1])
+        d = self.hidden.setdefault(name, {})
+        if not self.frozen:
+            d[key] = d.get(key, 0) + 1
+        return d.get(key, 0) % int(step) == 0
 
     # docs/functions/tally.md
     def m_tally(self, n, q, a):
